@@ -11,7 +11,8 @@ EXTENDS Dawg, TraceLib
 Codec  == INSTANCE DawgCodec
 Search == INSTANCE DawgSearchDefs
 
-VARIABLES l, dead, bad, st, fin   \* fin: Finish seen in this segment
+VARIABLES l, dead, bad, st, fin,  \* fin: the builder of this segment has finished (DawgLife.tla: done)
+          outs                    \* the accepted words at each successful Finish of this segment (DawgLife.tla: outs)
 Ev == Trace[l]
 W == SeqSet(acc)
 
@@ -52,9 +53,9 @@ JudgeGob(e) ==
          ELSE IF Len(p.nodes) > 0 /\ Len(p.nodes) <= 400 /\ TableWhy(p.nodes, W) # "" THEN "bytes parse to an automaton that is wrong: " \o TableWhy(p.nodes, W)
          ELSE ""
 
-TInit == l = 1 /\ acc = <<>> /\ act = [op |-> "New", w |-> <<>>, err |-> FALSE] /\ dead = FALSE /\ bad = <<>> /\ fin = FALSE
+TInit == l = 1 /\ acc = <<>> /\ act = [op |-> "New", w |-> <<>>, err |-> FALSE] /\ dead = FALSE /\ bad = <<>> /\ fin = FALSE /\ outs = <<>>
          /\ st = [segs |-> 0, adds |-> 0, rejected |-> 0, finishes |-> 0, tables |-> 0, lookups |-> 0, hits |-> 0,
-                  searches |-> 0, matches |-> 0, gobs |-> 0, parsed |-> 0, nontrivial |-> 0]
+                  searches |-> 0, matches |-> 0, gobs |-> 0, parsed |-> 0, nontrivial |-> 0, inits |-> 0, olds |-> 0]
 
 Flag(why) == /\ dead' = (why # "")
              /\ bad' = IF why = "" THEN bad ELSE Note(bad, [seg |-> Ev.seg, l |-> l, why |-> why \o " [" \o Ev.ev \o "]"])
@@ -65,27 +66,41 @@ SharesSuffixAndPrefix ==       \* non-triviality rule of DESIGN 2.4
 TStep ==
     /\ l <= NEvents /\ l' = l + 1
     /\ IF Ev.ev = "Reset"
-       THEN /\ acc' = <<>> /\ dead' = FALSE /\ bad' = bad /\ fin' = FALSE /\ UNCHANGED act
+       THEN /\ acc' = <<>> /\ dead' = FALSE /\ bad' = bad /\ fin' = FALSE /\ outs' = <<>> /\ UNCHANGED act
             /\ st' = [st EXCEPT !.segs = @ + 1]
-       ELSE IF dead THEN UNCHANGED <<acc, act, dead, bad, st, fin>>
-       ELSE IF Ev.ev = "Add"
-       THEN LET want == ~Accepts(acc, Ev.w)
+       ELSE IF dead THEN UNCHANGED <<acc, act, dead, bad, st, fin, outs>>
+       ELSE IF Ev.ev = "Add"                                            \* DawgLife!LAdd
+       THEN LET want == fin \/ ~Accepts(acc, Ev.w)
                 why == IF Ev.res # "ok" THEN Ev.res
-                       ELSE IF Ev.err # want THEN (IF want THEN "an out-of-order or duplicate Add was accepted" ELSE "a correctly ordered Add was rejected")
+                       ELSE IF Ev.err # want THEN (IF fin THEN "an Add after Finish was accepted"
+                                                   ELSE IF want THEN "an out-of-order or duplicate Add was accepted" ELSE "a correctly ordered Add was rejected")
                        ELSE "" IN
-            /\ Flag(why) /\ acc' = AddEff(acc, Ev.w) /\ act' = [op |-> "Add", w |-> Ev.w, err |-> want] /\ UNCHANGED fin
+            /\ Flag(why) /\ acc' = (IF fin THEN acc ELSE AddEff(acc, Ev.w)) /\ act' = [op |-> "Add", w |-> Ev.w, err |-> want] /\ UNCHANGED <<fin, outs>>
             /\ st' = [st EXCEPT !.adds = @ + 1, !.rejected = @ + (IF want THEN 1 ELSE 0)]
+       ELSE IF Ev.ev = "Finish" /\ fin                                  \* DawgLife!LFinish on a finished builder
+       THEN /\ Flag(IF Ev.res # "ok" THEN Ev.res ELSE IF ~Ev.err THEN "a second Finish did not return an error" ELSE "")
+            /\ UNCHANGED <<acc, act, fin, outs>> /\ st' = [st EXCEPT !.finishes = @ + 1]
        ELSE IF Ev.ev = "Finish"
-       THEN /\ Flag(JudgeFinish(Ev)) /\ fin' = TRUE /\ UNCHANGED <<acc, act>>
+       THEN /\ Flag(JudgeFinish(Ev)) /\ fin' = TRUE /\ outs' = Append(outs, acc) /\ UNCHANGED <<acc, act>>
             /\ st' = [st EXCEPT !.finishes = @ + 1, !.tables = @ + (IF Ev.table THEN 1 ELSE 0),
                                 !.nontrivial = @ + (IF SharesSuffixAndPrefix THEN 1 ELSE 0)]
+       ELSE IF Ev.ev = "Init"                                           \* DawgLife!LInitialise
+       THEN /\ Flag(IF Ev.res # "ok" THEN Ev.res ELSE "") /\ acc' = <<>> /\ fin' = FALSE /\ UNCHANGED <<act, outs>>
+            /\ st' = [st EXCEPT !.inits = @ + 1]
+       ELSE IF Ev.ev = "Old"                                            \* DawgLife!ReturnedIndexIsFrozen: the k-th returned Dawg, looked at again later
+       THEN /\ Flag(IF Ev.res # "ok" THEN Ev.res
+                    ELSE IF Ev.k < 1 \/ Ev.k > Len(outs) THEN "harness: snapshot of a Dawg that was never returned"
+                    ELSE IF Ev.nwords # Len(outs[Ev.k]) THEN "a Dawg returned by Finish changed afterwards (NumberOfWords)"
+                    ELSE IF TableWhy(Ev.nodes, SeqSet(outs[Ev.k])) # "" THEN "a Dawg returned by Finish changed afterwards: " \o TableWhy(Ev.nodes, SeqSet(outs[Ev.k]))
+                    ELSE "")
+            /\ UNCHANGED <<acc, act, fin, outs>> /\ st' = [st EXCEPT !.olds = @ + 1]
        ELSE IF Ev.ev = "Lookup"
-       THEN /\ Flag(JudgeLookup(Ev)) /\ UNCHANGED <<acc, act, fin>>
+       THEN /\ Flag(JudgeLookup(Ev)) /\ UNCHANGED <<acc, act, fin, outs>>
             /\ st' = [st EXCEPT !.lookups = @ + 1, !.hits = @ + (IF Ev.ok THEN 1 ELSE 0)]
        ELSE IF Ev.ev = "Search"
-       THEN /\ Flag(Search!JudgeSearch(acc, Ev)) /\ UNCHANGED <<acc, act, fin>>
+       THEN /\ Flag(Search!JudgeSearch(acc, Ev)) /\ UNCHANGED <<acc, act, fin, outs>>
             /\ st' = [st EXCEPT !.searches = @ + 1, !.matches = @ + Len(Ev.sol)]
-       ELSE /\ Flag(JudgeGob(Ev)) /\ UNCHANGED <<acc, act, fin>>
+       ELSE /\ Flag(JudgeGob(Ev)) /\ UNCHANGED <<acc, act, fin, outs>>
             /\ st' = [st EXCEPT !.gobs = @ + 1, !.parsed = @ + (IF Ev.b1 # <<>> THEN 1 ELSE 0)]
 
 Report == ReportLine(l, [bad |-> bad, st |-> st, events |-> NEvents])
